@@ -64,6 +64,9 @@ package decor
 //@ typeinv onCompleteMetaWrapper props C07 C02 self.Decorator != nil && self.fn != nil
 //@ typeinv onAbortMetaWrapper props C07 C02 self.Decorator != nil && self.fn != nil
 
+//@ iface Synchronizer.Sync
+//@   modifies nothing
+
 //@ iface TimeNormalizer.Normalize
 //@   params   src
 //@   modifies pkgstate("decor")
